@@ -54,11 +54,15 @@ impl MultiPattern {
             && old_status != Status::Rescore
             && self.cols[column].0.atoms.last().map_or(true, |last| {
                 // Appending to the last atom only narrows the matches if the atom keeps
-                // its meaning: a trailing `$` (postfix/exact) or a trailing backslash
-                // (which may turn into an escape) are reinterpreted by the appended text.
+                // its meaning: a trailing `$` (postfix/exact), a trailing backslash (which
+                // may turn into an escape) and an escaped trailing `$` (`\$` is only an
+                // escape at the very end of an atom) are reinterpreted by the appended text.
                 !last.negative
                     && !matches!(last.kind, AtomKind::Postfix | AtomKind::Exact)
-                    && last.needle_text().chars().next_back() != Some('\\')
+                    && !matches!(
+                        last.needle_text().chars().next_back(),
+                        Some('\\' | '$')
+                    )
             })
         {
             self.cols[column].1 = Status::Update;
